@@ -375,7 +375,7 @@ def bd4(prog, rr):
 
 
 # --------------------------------------------------------------------------------------- DS1 / DS2
-@rule("DS1", ["C15"], "dist rewrite: membership over every weight, exclusion per zero weight, both hard, override installed on every path", engine="SAI", floor=4)
+@rule("DS1", ["C15", "C01", "C02"], "dist rewrite: membership over every weight, exclusion per zero weight, both hard, override installed on every path", engine="SAI", floor=4)
 def ds1(prog, rr):
     f = prog.method("DistConstraintBuilder", "visit_constraint_dist")
     cp = f.params[1]
